@@ -19,7 +19,7 @@ func TestProp(t *testing.T)   { vkit.RunAll(t) }
 func TestReplay(t *testing.T) { vkit.RunReplay(t) }
 
 func run(c tsofix.Case) (vkit.Info, error) {
-	info, viol := tsofix.Run(c)
+	info, viol := tsofix.Run(c, "C01")
 	info.NonTrivial = tsofix.NonTrivialC01(info)
 	for _, v := range viol {
 		if v.Prop == "C01" {
